@@ -58,7 +58,7 @@ def dec_field(f, b):
     elif kind == "A_float":
         v = a_float(b.decode("ascii"))
     elif kind == "A_str":
-        v = b.decode("ascii").strip(" ")
+        v = b.decode("ascii").rstrip("\0").strip(" ")  # padding = trailing NUL bytes, then blanks on either side
     elif kind == "A_complex":
         h = len(b) // 2
         v = (a_float(b[:h].decode("ascii")), a_float(b[h:].decode("ascii")))
